@@ -18,6 +18,7 @@ RULE = ("condition strings = all expression ASTs up to a size bound over a name/
         "keyword-prefixed / underscore / digit-leading name"
         "; plus the same condition text parsed twice in one process against different detection sets"
         "; names that are substrings of 'condition', patterns with several '*', the two-step parse API (parse(False) + postprocess) as first use")
+RULE += "; round 4: detection names that are keys of other Sigma documents ('rules', 'timeframe', 'detection'), names and selector patterns with upper-case letters / differing only in case"
 ASSUMPTIONS = [
     "pyparsing implements the five combinators used by the grammar as a scannerless PEG (validated by this sweep)",
     "look-behind half of pyparsing.Keyword is not modelled (cannot fire in the Keyword grammar)",
@@ -28,9 +29,12 @@ ASSUMPTIONS = [
 NAMES = ["sel", "notepad", "android", "order", "allx", "anyof", "of_x", "them2", "1st", "_inj", "a-b",
          "filter_1", "filter_2", "not-b", "sel2", "x_1", "notb", "orb", "andb", "b", "Sel",
          # names that are substrings of the word 'condition', names matching only part of a multi-star pattern
-         "on", "cond", "it", "c", "fx", "filterx", "sel_x_1", "proc_a_susp1", "proc_b"]
+         "on", "cond", "it", "c", "fx", "filterx", "sel_x_1", "proc_a_susp1", "proc_b",
+         # names that are keys of other Sigma documents (a filter's 'rules', top-level rule keys), names differing only in case
+         "rules", "timeframe", "detection", "Sel_Image", "sel_image", "SEL_X_1", "Proc_B"]
 PATTERNS = ["them", "sel*", "*_1", "f*_*", "_*", "*", "not*", "*b", "filter_1", "zzz*", "a*",
-            "f*_1*", "proc_*_susp*", "*_x_*", "s*l*_*1", "*o*", "c*"]
+            "f*_1*", "proc_*_susp*", "*_x_*", "s*l*_*1", "*o*", "c*",
+            "Sel*", "*_Image", "SEL*", "*_X_*", "Proc_*", "r*", "*s"]
 KEYWORDY = ("not", "and", "or", "all", "any", "of", "them", "1")
 
 
